@@ -58,6 +58,7 @@ Section Top.
   Hypothesis Hrootdir : is_dir (sdent sroot) = true.
   Variable sdof : N -> dent.
   Hypothesis Hcons : cons_s (multi_of sroot) sdof sroot.
+  Variable S : Prop.     (* exact-partition mode (CopyLinkP.v) *)
   Notation Inv := (Inv o).
   Notation touch := (touch o).
   Notation G := (G o).
@@ -114,18 +115,18 @@ Section Top.
     match res with
     | inl r => exists st' cr, out = (st', None, cr) /\ Inv (c_fs st') (xr_view r) /\ x_isdir (xr_view r []) = true /\
                  G (xr_view r) (cr0 ++ cr) /\ c_notifs st' = rev (xr_notifs r) ++ c_notifs st /\
-                 Lk o ms multi sdof (c_fs st') (xr_view r) (c_imap st') /\ c_stale st' = c_stale st
+                 Lk o ms multi sdof S (c_fs st') (xr_view r) (c_imap st')
     | inr xe =>
-      exists st' e cr, out = (st', Some e, cr) /\ err_cls e = xerr_cls xe /\ c_stale st' = c_stale st /\
+      exists st' e cr, out = (st', Some e, cr) /\ err_cls e = xerr_cls xe /\
         match xe with
         | XConflict _ p bef => exists X', Inv (c_fs st') X' /\ X' p = bef /\ bef <> None /\ G X' (cr0 ++ cr) /\
-                                          Lk o ms multi sdof (c_fs st') X' (c_imap st')
+                                          Lk o ms multi sdof S (c_fs st') X' (c_imap st')
         | _ => True
         end
     end.
 
   Lemma copy_one_spec ms dst src st X cr0 sn :
-    Inv (c_fs st) X -> Lk o ms multi sdof (c_fs st) X (c_imap st) -> PCall (c_imap st) ->
+    Inv (c_fs st) X -> Lk o ms multi sdof S (c_fs st) X (c_imap st) -> (S -> PCall (c_imap st)) ->
     x_isdir (X []) = true -> G X cr0 -> s_resolve sroot (rooted src) = inl sn ->
     one_ok ms st cr0 (overlay_one o ms multi sn src dst X) (copy_one o selected sroot ms dst src st).
   Proof.
@@ -133,7 +134,7 @@ Section Top.
     rewrite (root_path_spec o _ _ (clean dst) I).
     destruct (root_path (c_fs st) (clean dst)) as [D|e] eqn:ERP; cbn [map_res].
     2:{ pose proof (root_path_err _ _ _ ERP) as He. unfold one_ok.
-        exists st, e, []. split; auto. split; [symmetry; apply xerr_of_cls; auto|]. split; auto.
+        exists st, e, []. split; auto. split; [symmetry; apply xerr_of_cls; auto|].
         destruct He as [-> | ->]; exact Logic.I. }
     pose proof (root_path_not_lnk o _ _ _ _ I Hroot ERP) as Hnl. unfold notlnk in Hnl.
     pose proof (inv_lstat _ _ _ D I) as HL.
@@ -154,10 +155,10 @@ Section Top.
     { unfold x_exists. destruct (lstat (c_fs st) D), (X D); try contradiction; auto. }
     rewrite Eex.
     set (target := if o_dircontents o && is_dir (sdent sn) && negb (x_exists (X D)) then L else parent L).
-    pose proof (mkdir_all_spec o ms multi sdof target st X I L0 Hroot) as HM.
+    pose proof (mkdir_all_spec o ms multi sdof S target st X I L0 Hroot) as HM.
     destruct (make_dirs o [] target X) as [X1|xe] eqn:EMD.
     2:{ destruct HM as (st1 & e & E1 & E2 & E3 & E4 & _). rewrite E1. unfold one_ok.
-        exists st1, e, []. split; auto. subst xe. split; [symmetry; apply xerr_of_cls; auto|]. split; [apply E4|].
+        exists st1, e, []. split; auto. subst xe. split; [symmetry; apply xerr_of_cls; auto|].
         destruct E3 as [-> | ->]; exact Logic.I. }
     destruct HM as (st1 & cr & E1 & I1 & R1 & N1 & O1 & L1). rewrite E1.
     pose proof (make_dirs_final_dir o target [] X X1 EMD) as Hfd. simpl in Hfd.
@@ -185,15 +186,15 @@ Section Top.
     - (* conflict *)
       destruct (o_replace o) eqn:Er; [discriminate|].
       destruct (first_conflict_is_conflict _ _ _ _ EC) as (cls & q & be & ->).
-      assert (Hpc1 : PC L (c_imap st1)) by (rewrite R1a; apply Hpc).
-      destruct (copy_node_conflict o ms multi selected Hsel sdof sn Hwfn Hcsn [] L false st1 X1 cls q (Some be) I1 L1 Hpc1 Htok Er EC)
-        as (st' & e & X' & F1 & F2 & F3 & F4 & F5 & F6 & F7 & F8).
+      assert (Hpc1 : S -> PC L (c_imap st1)) by (intro HS; rewrite R1a; apply Hpc; auto).
+      destruct (copy_node_conflict o ms multi selected Hsel sdof S sn Hwfn Hcsn [] L false st1 X1 cls q (Some be) I1 L1 Hpc1 Htok Er EC)
+        as (st' & e & X' & F1 & F2 & F3 & F4 & F5 & F6 & F7).
       rewrite F1. unfold one_ok.
-      exists st', e, cr. split; [reflexivity|]. split; [auto|]. split; [congruence|]. exists X'. split; [auto|]. split; [auto|]. split; auto.
+      exists st', e, cr. split; [reflexivity|]. split; [auto|]. exists X'. split; [auto|]. split; [auto|]. split; auto.
     - (* success *)
-      assert (Hpc1 : PC L (c_imap st1)) by (rewrite R1a; apply Hpc).
-      destruct (copy_node_ok o ms multi selected Hsel sdof sn Hwfn Hcsn [] L false st1 X1 I1 L1 Hpc1 Htok)
-        as (st' & F1 & F2 & FL & FM & F3 & F5).
+      assert (Hpc1 : S -> PC L (c_imap st1)) by (intro HS; rewrite R1a; apply Hpc; auto).
+      destruct (copy_node_ok o ms multi selected Hsel sdof S sn Hwfn Hcsn [] L false st1 X1 I1 L1 Hpc1 Htok)
+        as (st' & F1 & F2 & FL & FM & F3).
       { intros Er. rewrite Er in EC. auto. }
       rewrite F1. unfold one_ok. cbn [negb xr_view xr_notifs] in *.
       assert (Eview : forall p, match L with
@@ -202,26 +203,25 @@ Section Top.
                                             else touch (parent L) (overlay_at o ms multi sn L X1)
                                 end p = res o ms multi sn L true X1 p).
       { intro p. unfold res. destruct L eqn:EL0; auto. rewrite (HLdir eq_refl), Hroot1. auto. }
-      exists st', cr. split; [reflexivity|]. split; [eapply Inv_ext; eauto|]. split; [|split; [|split; [|split]]].
+      exists st', cr. split; [reflexivity|]. split; [eapply Inv_ext; eauto|]. split; [|split; [|split]].
       + rewrite Eview. apply res_root_dir; auto.
       + eapply G_ext; [exact Eview|]. apply G_res; auto.
       + rewrite F3. congruence.
       + eapply Lk_ext; [exact Eview|exact FL].
-      + congruence.
   Qed.
   (* ---- all sources ---- *)
   (* several sources are handled only for sources without link groups: then nothing is ever
      recorded in copier.inodes *)
   Lemma PCall_nil : PCall [].
   Proof. intros T s l i H. discriminate. Qed.
-  Lemma PCall_nolinks ms fs X im : (forall i, multi i = false) -> Lk o ms multi sdof fs X im -> PCall im.
+  Lemma PCall_nolinks ms fs X im : (forall i, multi i = false) -> Lk o ms multi sdof S fs X im -> PCall im.
   Proof.
-    intros Hn L T s l i H. destruct (lk_rec _ _ _ _ _ _ _ L _ _ _ H) as (_ & Hm & _). rewrite Hn in Hm. discriminate.
+    intros Hn L T s l i H. destruct (lk_rec _ _ _ _ _ _ _ _ L _ _ _ H) as (_ & Hm & _). rewrite Hn in Hm. discriminate.
   Qed.
 
   Lemma copy_srcs_spec ms dst : forall srcs st X cr0,
-    ((forall i, multi i = false) \/ (length srcs <= 1)%nat) ->
-    Inv (c_fs st) X -> Lk o ms multi sdof (c_fs st) X (c_imap st) -> PCall (c_imap st) ->
+    (S -> (forall i, multi i = false) \/ (length srcs <= 1)%nat) ->
+    Inv (c_fs st) X -> Lk o ms multi sdof S (c_fs st) X (c_imap st) -> (S -> PCall (c_imap st)) ->
     x_isdir (X []) = true -> G X cr0 ->
     one_ok ms st cr0 (overlay_srcs o sroot ms dst srcs X) (copy_srcs o selected sroot ms dst srcs st).
   Proof.
@@ -231,24 +231,26 @@ Section Top.
       destruct (s_resolve sroot (rooted s)) as [sn|e] eqn:Eres.
       + pose proof (copy_one_spec ms dst s st X cr0 sn I L0 Hpc Hroot Hg Eres) as H1.
         destruct (overlay_one o ms multi sn s dst X) as [r1|xe].
-        * destruct H1 as (st1 & cr1 & E1 & I1 & Hr1 & G1 & N1 & L1 & S1). rewrite E1.
-          assert (Hrest : r = [] \/ PCall (c_imap st1)).
-          { destruct Hmode as [Hn|Hlen]; [right; eapply PCall_nolinks; eauto|].
+        * destruct H1 as (st1 & cr1 & E1 & I1 & Hr1 & G1 & N1 & L1). rewrite E1.
+          assert (Hrest : S -> r = [] \/ PCall (c_imap st1)).
+          { intro HS. destruct (Hmode HS) as [Hn|Hlen]; [right; eapply PCall_nolinks; eauto|].
             left. destruct r; auto. simpl in Hlen. lia. }
-          destruct Hrest as [-> | Hpc1].
+          destruct r as [|s2 r2].
           -- simpl. exists st1, (cr1 ++ []). cbn [xr_view xr_notifs]. rewrite !app_nil_r. spl; auto.
-          -- assert (Hmode' : (forall i, multi i = false) \/ (length r <= 1)%nat).
-             { destruct Hmode as [Hn|Hlen]; auto. right. simpl in Hlen. lia. }
+          -- assert (Hpc1 : S -> PCall (c_imap st1)).
+             { intro HS. destruct (Hrest HS) as [H|H]; [discriminate|auto]. }
+             assert (Hmode' : S -> (forall i, multi i = false) \/ (length (s2 :: r2) <= 1)%nat).
+             { intro HS. destruct (Hmode HS) as [Hn|Hlen]; auto. simpl in Hlen. lia. }
              specialize (IH st1 (xr_view r1) (cr0 ++ cr1) Hmode' I1 L1 Hpc1 Hr1 G1).
-             destruct (overlay_srcs o sroot ms dst r (xr_view r1)) as [r2|xe].
-             ++ destruct IH as (st2 & cr2 & E2 & I2 & Hr2 & G2 & N2 & L2 & S2). rewrite E2.
+             destruct (overlay_srcs o sroot ms dst (s2 :: r2) (xr_view r1)) as [r2'|xe].
+             ++ destruct IH as (st2 & cr2 & E2 & I2 & Hr2 & G2 & N2 & L2). rewrite E2.
                 exists st2, (cr1 ++ cr2). cbn [xr_view xr_notifs]. rewrite app_assoc.
                 split; auto. split; auto. split; auto. split; auto.
-                split; [rewrite N2, N1, rev_app_distr, app_assoc; auto|]. split; [auto|congruence].
-             ++ destruct IH as (st2 & e & cr2 & E2 & C2 & S2 & K2). rewrite E2.
-                exists st2, e, (cr1 ++ cr2). split; auto. split; auto. split; [congruence|].
+                split; [rewrite N2, N1, rev_app_distr, app_assoc; auto|auto].
+             ++ destruct IH as (st2 & e & cr2 & E2 & C2 & K2). rewrite E2.
+                exists st2, e, (cr1 ++ cr2). split; auto. split; auto.
                 destruct xe; auto. rewrite app_assoc. auto.
-        * destruct H1 as (st1 & e & cr1 & E1 & C1 & S1 & K1). rewrite E1. exists st1, e, cr1. auto.
+        * destruct H1 as (st1 & e & cr1 & E1 & C1 & K1). rewrite E1. exists st1, e, cr1. auto.
       + unfold copy_one. rewrite Eres. pose proof (s_resolve_err _ _ _ Eres) as He.
         destruct He as [-> | ->]; exists st; eexists; exists []; spl; auto.
   Qed.
@@ -260,21 +262,21 @@ Section Top.
   Definition mk_timed (fs : fsys) (X : xview) : Prop :=
     forall q i e t, names fs q = Some i -> X q = Some e -> x_mk e = true -> o_utime o = Some t -> d_mtime (inodes fs i) = t.
 
-  Lemma fix_created_ok ms cr st X : Inv (c_fs st) X -> Lk o ms multi sdof (c_fs st) X (c_imap st) -> G X cr ->
+  Lemma fix_created_ok ms cr st X : Inv (c_fs st) X -> Lk o ms multi sdof S (c_fs st) X (c_imap st) -> G X cr ->
     Inv (c_fs (fix_created o cr st)) X /\ strict (c_fs (fix_created o cr st)) X /\ same_rest (fix_created o cr st) st /\
     mk_timed (c_fs (fix_created o cr st)) X /\
-    Lk o ms multi sdof (c_fs (fix_created o cr st)) X (c_imap (fix_created o cr st)).
+    Lk o ms multi sdof S (c_fs (fix_created o cr st)) X (c_imap (fix_created o cr st)).
   Proof.
     intros I L0 Hg. unfold fix_created. destruct (o_utime o) as [t|] eqn:Eu.
     - set (step := fun s d => match upd_path d (set_mtime t) (c_fs s) with Some f => with_fs s f | None => s end).
       assert (Gen : forall todo st0 (P : list (list N) -> Prop),
-        Inv (c_fs st0) X -> Lk o ms multi sdof (c_fs st0) X (c_imap st0) -> (forall q, In q todo -> In q cr) ->
+        Inv (c_fs st0) X -> Lk o ms multi sdof S (c_fs st0) X (c_imap st0) -> (forall q, In q todo -> In q cr) ->
         (forall q i, P q -> names (c_fs st0) q = Some i -> d_mtime (inodes (c_fs st0) i) = t) ->
         Inv (c_fs (fold_left step todo st0)) X /\
         (forall q i, P q \/ In q todo -> names (c_fs (fold_left step todo st0)) q = Some i ->
                      d_mtime (inodes (c_fs (fold_left step todo st0)) i) = t) /\
         same_rest (fold_left step todo st0) st0 /\
-        Lk o ms multi sdof (c_fs (fold_left step todo st0)) X (c_imap (fold_left step todo st0))).
+        Lk o ms multi sdof S (c_fs (fold_left step todo st0)) X (c_imap (fold_left step todo st0))).
       { induction todo as [|d todo IH]; intros st0 P I0 L1 Hsub HP.
         - simpl. split; auto. split; [|split; [apply same_rest_refl|auto]]. intros q i [Hq|[]]. intro Hn. eapply HP; eauto.
         - cbn [fold_left].
@@ -288,10 +290,9 @@ Section Top.
             { intros p ep Hp Hep. destruct K1 as [K1|(s0 & K1)].
               - rewrite K1 in E3. destruct E3 as [_ Hu]. apply Hu in Hp. subst p. rewrite E1 in Hep. inversion Hep; subst.
                 apply (proj1 K2). auto.
-              - destruct (lk_src _ _ _ _ _ _ _ L1 _ _ _ E1 K1) as (l & i' & R1 & R2). rewrite En in R2. inversion R2; subst i'.
-                destruct (lk_mem _ _ _ _ _ _ _ L1 _ _ _ _ R1 Hp) as (e1 & A1 & _ & A3 & _).
-                destruct (lk_mem _ _ _ _ _ _ _ L1 _ _ _ _ R1 En) as (e2 & B1 & _ & B3 & _).
-                rewrite Hep in A1. inversion A1; subst e1. rewrite E1 in B1. inversion B1; subst e2.
+              - destruct (lk_grp _ _ _ _ _ _ _ _ L1 _ _ _ E1 K1) as (_ & B3 & _ & _ & B5).
+                destruct (B5 _ _ En Hp) as (e1 & A1 & A2). rewrite Hep in A1. inversion A1; subst e1.
+                destruct (lk_grp _ _ _ _ _ _ _ _ L1 _ _ _ Hep A2) as (_ & A3 & _).
                 rewrite A3, <- B3. apply (proj1 K2). auto. }
             assert (I1 : Inv (upd_inode i (set_mtime t) (c_fs st0)) X).
             { eapply (inv_upd o _ X X i (set_mtime t) I0); auto.
@@ -300,7 +301,7 @@ Section Top.
               destruct F2 as (B1 & B2 & B3 & B4 & B5 & B6 & B7 & B8).
               unfold dm. cbn [set_mtime d_mode d_uid d_gid d_mtime d_rdev d_target d_xattrs d_content].
               repeat split; auto. intros _. symmetry. eapply Hall; eauto. }
-            assert (L2 : Lk o ms multi sdof (upd_inode i (set_mtime t) (c_fs st0)) X (c_imap st0)).
+            assert (L2 : Lk o ms multi sdof S (upd_inode i (set_mtime t) (c_fs st0)) X (c_imap st0)).
             { eapply Lk_names_ext; [|exact L1]. reflexivity. }
             destruct (IH (with_fs st0 (upd_inode i (set_mtime t) (c_fs st0))) (fun q => P q \/ q = d)) as (J1 & J2 & J3 & J4); auto.
             { intros q Hq. apply Hsub. right; auto. }
@@ -340,13 +341,17 @@ Section Top.
     (forall p q i, names fs p = Some i -> names fs q = Some i -> is_dir (inodes fs i) = true -> p = q) /\
     (exists i, names fs [] = Some i /\ is_dir (inodes fs i) = true).
 
-  Lemma lk_init ms fs : Lk o ms multi sdof fs (xview_of (view_of_fs fs)) [].
+  Lemma lk_init ms fs : Lk o ms multi sdof S fs (xview_of (view_of_fs fs)) [].
   Proof.
+    assert (Hk : forall p e s, xview_of (view_of_fs fs) p = Some e -> x_key e = KSrc s -> False).
+    { intros p e s H1 H2. unfold xview_of, view_of_fs in H1. destruct (names fs p); [|discriminate].
+      inversion H1; subst. discriminate. }
     split.
+    - constructor.
     - intros s l i H. discriminate.
     - intros s l i p H. discriminate.
-    - intros p e s H1 H2. unfold xview_of, view_of_fs in H1. destruct (names fs p); [|discriminate].
-      inversion H1; subst. discriminate.
+    - intros p e s H1 H2. exfalso. eapply Hk; eauto.
+    - intros _ p e s H1 H2. exfalso. eapply Hk; eauto.
   Qed.
 
   Lemma inv_init fs : wf_fs fs -> Inv fs (xview_of (view_of_fs fs)) /\ x_isdir (xview_of (view_of_fs fs) []) = true /\
@@ -376,32 +381,32 @@ Section Top.
   Definition top_ok (res : xres + xerr) (out : R) : Prop :=
     match res with
     | inl r => exists st', out = (st', None) /\ Inv (c_fs st') (xr_view r) /\ strict (c_fs st') (xr_view r) /\
-                           rev (c_notifs st') = xr_notifs r /\ c_stale st' = false /\
+                           rev (c_notifs st') = xr_notifs r /\
                            mk_timed (c_fs st') (xr_view r) /\ (exists cr, G (xr_view r) cr) /\
                            x_isdir (xr_view r []) = true /\
-                           Lk o the_ms multi sdof (c_fs st') (xr_view r) (c_imap st')
-    | inr xe => exists st' e, out = (st', Some e) /\ err_cls e = xerr_cls xe /\ c_stale st' = false /\
+                           Lk o the_ms multi sdof S (c_fs st') (xr_view r) (c_imap st')
+    | inr xe => exists st' e, out = (st', Some e) /\ err_cls e = xerr_cls xe /\
         match xe with
         | XConflict _ p bef => exists X', Inv (c_fs st') X' /\ strict (c_fs st') X' /\ X' p = bef /\ bef <> None
         | _ => True
         end
     end.
 
-  Theorem copy_top_ok fs src dst : wf_fs fs -> ((forall i, multi i = false) \/ o_wild o = false) ->
+  Theorem copy_top_ok fs src dst : wf_fs fs -> (S -> (forall i, multi i = false) \/ o_wild o = false) ->
     top_ok (overlay_all o sroot (view_of_fs fs) src dst) (copy_top o selected sroot fs src dst).
   Proof.
     intros Hfs Hmode. destruct (inv_init fs Hfs) as (I0 & Hroot0 & G0).
     pose proof (lk_init the_ms fs) as L00.
     unfold copy_top, overlay_all. fold (ensure_arg dst).
     set (X0 := xview_of (view_of_fs fs)) in *.
-    set (st0 := {| c_fs := fs; c_imap := []; c_notifs := []; c_stale := false |}).
+    set (st0 := {| c_fs := fs; c_imap := []; c_notifs := []; c_split := false |}).
     (* ensureDstPath *)
     match goal with |- top_ok match ?sp with _ => _ end _ => set (SP := sp) end.
     match goal with |- top_ok _ (match ?en with _ => _ end) => set (EN := en) end.
     assert (Ens : match SP with
                   | inl (X1, _) => exists st1 cr1,
                       EN = (st1, None, cr1) /\ Inv (c_fs st1) X1 /\ x_isdir (X1 []) = true /\ G X1 cr1 /\ same_rest st1 st0 /\
-                      Lk o the_ms multi sdof (c_fs st1) X1 (c_imap st1)
+                      Lk o the_ms multi sdof S (c_fs st1) X1 (c_imap st1)
                   | inr xe => exists st1 e,
                       EN = (st1, Some e, []) /\ err_cls e = xerr_cls xe /\ same_rest st1 st0 /\
                       match xe with XConflict _ _ _ => False | _ => True end
@@ -411,7 +416,7 @@ destruct (ensure_arg dst) as [|c0 e0] eqn:Een.
       - exists st0, []. spl; auto; apply same_rest_refl.
       - rewrite <- Een. rewrite (root_path_spec o fs X0 (ensure_arg dst) I0).
         destruct (root_path fs (ensure_arg dst)) as [ep|e] eqn:ERP; cbn [map_res].
-        + pose proof (mkdir_all_spec o the_ms multi sdof ep st0 X0 I0 L00 Hroot0) as HM.
+        + pose proof (mkdir_all_spec o the_ms multi sdof S ep st0 X0 I0 L00 Hroot0) as HM.
           destruct (make_dirs o [] ep X0) as [X1|xe] eqn:EMD.
           * destruct HM as (st1 & cr1 & E1 & I1 & R1 & N1 & O1 & L1). exists st1, cr1.
             split; auto. split; auto. split; [eapply make_dirs_mono; eauto|]. split; [|split; auto].
@@ -423,53 +428,41 @@ destruct (ensure_arg dst) as [|c0 e0] eqn:Een.
           split; auto. split; [symmetry; apply xerr_of_cls; auto|]. split; [apply same_rest_refl|].
           destruct He as [-> | ->]; exact Logic.I. }
     clearbody SP EN. destruct SP as [[X1 eps]|xe].
-    2:{ destruct Ens as (st1 & e & E1 & C1 & (_ & _ & S1) & K1). rewrite E1. unfold top_ok.
-        exists st1, e. split; auto. split; auto. split; [rewrite S1; auto|]. destruct xe; auto. contradiction. }
-    destruct Ens as (st1 & cr1 & E1 & I1 & Hroot1 & G1 & (M1 & N1 & S1) & L1). rewrite E1.
+    2:{ destruct Ens as (st1 & e & E1 & C1 & _ & K1). rewrite E1. unfold top_ok.
+        exists st1, e. split; auto. split; auto. destruct xe; auto. contradiction. }
+    destruct Ens as (st1 & cr1 & E1 & I1 & Hroot1 & G1 & (M1 & N1 & _) & L1). rewrite E1.
     (* ModeStr *)
     destruct (match o_modestr o with [] => Some None | _ :: _ => option_map Some (parse_mode (o_modestr o)) end) as [ms|] eqn:Ems.
-    2:{ destruct (fix_created_ok the_ms (cr1 ++ []) st1 X1 I1 L1) as (J1 & J2 & (_ & _ & J3) & _); [rewrite app_nil_r; auto|].
-        assert (Ems' : match o_modestr o with [] => Some None | s :: l => option_map Some (parse_mode (s :: l)) end = None).
+    2:{ assert (Ems' : match o_modestr o with [] => Some None | s :: l => option_map Some (parse_mode (s :: l)) end = None).
         { destruct (o_modestr o); auto. }
-        rewrite Ems'. unfold top_ok. eexists; eexists. split; [reflexivity|]. split; auto. split; auto. rewrite J3, S1. auto. }
+        rewrite Ems'. unfold top_ok. eexists; eexists. split; [reflexivity|]. split; auto. }
     assert (Ems' : match o_modestr o with [] => Some None | s :: l => option_map Some (parse_mode (s :: l)) end = Some ms).
     { destruct (o_modestr o); auto. }
     rewrite Ems'.
     (* wildcards *)
     destruct (if o_wild o then resolve_wild sroot src else inl [src]) as [srcs|e] eqn:Ew.
-    2:{ destruct (fix_created_ok the_ms (cr1 ++ []) st1 X1 I1 L1) as (J1 & J2 & (_ & _ & J3) & _); [rewrite app_nil_r; auto|].
-        assert (He : e = EScope \/ e = EOther).
+    2:{ assert (He : e = EScope \/ e = EOther).
         { destruct (o_wild o); [eapply resolve_wild_err; eauto|discriminate]. }
-        unfold top_ok. destruct He as [-> | ->]; eexists; eexists; (split; [reflexivity|]); (split; [reflexivity|]);
-          (split; [rewrite J3, S1; auto|exact Logic.I]). }
+        unfold top_ok. destruct He as [-> | ->]; eexists; eexists; (split; [reflexivity|]); (split; [reflexivity|exact Logic.I]). }
     destruct srcs as [|s0 srcs].
-    { destruct (fix_created_ok the_ms (cr1 ++ []) st1 X1 I1 L1) as (J1 & J2 & (_ & _ & J3) & _); [rewrite app_nil_r; auto|].
-      unfold top_ok. eexists; eexists. split; [reflexivity|]. split; [reflexivity|]. split; auto. rewrite J3, S1. auto. }
+    { unfold top_ok. eexists; eexists. split; [reflexivity|]. split; [reflexivity|]. auto. }
     assert (Hms : the_ms = ms) by (unfold the_ms; rewrite Ems'; auto).
     rewrite Hms in *.
-    assert (Hmode2 : (forall i, multi i = false) \/ (length (s0 :: srcs) <= 1)%nat).
-    { destruct Hmode as [Hn|Hw]; auto. right. rewrite Hw in Ew. inversion Ew; subst. simpl. auto. }
-    assert (Hpc1 : PCall (c_imap st1)) by (rewrite M1; apply PCall_nil).
+    assert (Hmode2 : S -> (forall i, multi i = false) \/ (length (s0 :: srcs) <= 1)%nat).
+    { intro HS. destruct (Hmode HS) as [Hn|Hw]; auto. right. rewrite Hw in Ew. inversion Ew; subst. simpl. auto. }
+    assert (Hpc1 : S -> PCall (c_imap st1)) by (intros _; rewrite M1; apply PCall_nil).
     pose proof (copy_srcs_spec ms dst (s0 :: srcs) st1 X1 cr1 Hmode2 I1 L1 Hpc1 Hroot1 G1) as HS.
     destruct (overlay_srcs o sroot ms dst (s0 :: srcs) X1) as [r|xe].
-    - destruct HS as (st2 & cr2 & E2 & I2 & Hr2 & G2 & N2 & L2 & S2). rewrite E2.
+    - destruct HS as (st2 & cr2 & E2 & I2 & Hr2 & G2 & N2 & L2). rewrite E2.
       destruct (fix_created_ok ms (cr1 ++ cr2) st2 (xr_view r) I2 L2 G2) as (J1 & J2 & (J3 & J4 & J5) & J6 & J7).
       unfold top_ok. rewrite Hms. cbn [xr_view xr_notifs]. eexists. split; [reflexivity|]. split; auto. split; auto.
       split; [rewrite J4, N2, N1; unfold st0; cbn [c_notifs]; rewrite app_nil_r, rev_involutive; reflexivity|].
-      split; [rewrite J5, S2, S1; auto|]. split; [auto|]. split; [eauto|]. split; auto.
-    - destruct HS as (st2 & e & cr2 & E2 & C2 & S2 & K2). rewrite E2.
+      split; [auto|]. split; [eauto|]. split; auto.
+    - destruct HS as (st2 & e & cr2 & E2 & C2 & K2). rewrite E2.
       unfold top_ok. eexists; eexists. split; [reflexivity|]. split; auto.
-      destruct xe as [cls p bef| |].
-      + destruct K2 as (X' & K1 & K3 & K4 & K5 & K6).
-        destruct (fix_created_ok ms (cr1 ++ cr2) st2 X' K1 K6 K5) as (J1 & J2 & (J3 & J4 & J5) & _).
-        split; [rewrite J5, S2, S1; auto|]. exists X'. auto.
-      + split; auto. unfold fix_created. destruct (o_utime o); [|rewrite S2, S1; auto].
-        assert (Hst : forall l s, c_stale (fold_left (fun s d => match upd_path d (set_mtime n) (c_fs s) with Some f => with_fs s f | None => s end) l s) = c_stale s).
-        { induction l; intro s1; simpl; auto. rewrite IHl. destruct (upd_path _ _ _); auto. }
-        rewrite Hst, S2, S1. auto.
-      + split; auto. unfold fix_created. destruct (o_utime o); [|rewrite S2, S1; auto].
-        assert (Hst : forall l s, c_stale (fold_left (fun s d => match upd_path d (set_mtime n) (c_fs s) with Some f => with_fs s f | None => s end) l s) = c_stale s).
-        { induction l; intro s1; simpl; auto. rewrite IHl. destruct (upd_path _ _ _); auto. }
-        rewrite Hst, S2, S1. auto.
+      destruct xe as [cls p bef| |]; auto.
+      destruct K2 as (X' & K1 & K3 & K4 & K5 & K6).
+      destruct (fix_created_ok ms (cr1 ++ cr2) st2 X' K1 K6 K5) as (J1 & J2 & (J3 & J4 & J5) & _).
+      exists X'. auto.
   Qed.
 End Top.
